@@ -28,7 +28,7 @@ namespace C17
 
 theorem typeid_scan : Gen.SimdScan.maskTypeIdTests = [("hsl.rs", 1), ("hsv.rs", 1)] := by decide +kernel
 
-theorem horizontal_scan : Gen.SimdScan.horizontalCalls = [("hsl.rs", 5, 5), ("hsv.rs", 4, 4), ("lib.rs", 1, 0)] := by decide +kernel
+theorem horizontal_scan : Gen.SimdScan.horizontalCalls = [("hsl.rs", 6, 6), ("hsv.rs", 4, 4), ("lib.rs", 1, 0)] := by decide +kernel
 
 theorem wide_files :
     Gen.SimdScan.wideFiles = [("angle/wide.rs", false), ("bool_mask/wide.rs", false), ("cam16/full.rs", true), ("num/wide.rs", false)] ∧
